@@ -32,7 +32,7 @@ func init() {
 		Technique: "per-path ledger balance over E-literals (every feasible combination of balance/supply updates at an exit sums to zero), single writers, term checks of the stored records and notifications, boundary-operator agreement over all time/expiration comparisons, ordering of release before credit",
 		Explanation: "D1 total supply, balances and the token index are written only by updateTotalSupply/updateBalance (and the deploy initialisation). D2 at every normal exit of every ABI method, every combination of executed updateBalance/updateTotalSupply calls that the exit facts allow has Σ balance diffs = Σ supply diffs. " +
 			"D3 one Transfer(from, to, 1, name) per ownership change, emitted exactly with the record write, from = the previous owner term (the stored owner whenever a balance was released). D4 Transfer stores the loaded record with Owner := to, Admin := nil. D5 Renew: 1 ≤ years ≤ 10, expiration += 365·24·3600·1000·years, the ten-year bound is enforced for non-TLD names. " +
-			"D6 every direct comparison between the block time and an Expiration field puts t == expiration on the expired side (sibling sites agree on the boundary). D7 OwnerOf/Properties return only with 'not expired' and 'parents alive' established; when a re-registration releases the old owner's entry the credit of the new owner has not yet been written (so re-registration by the same owner keeps its token index entry). D8 Transfer and Register hand control to the receiver (onNEP11Payment) only after all their stores (callback-last). M: Register stores only names of at least two labels, with the TLD present, parents alive and over an absent or expired record; RegisterTLD one label, free, root marker written; Transfer rewrites the record on every successful transfer to another account; updateBalance stores or deletes exactly by the new balance, continuing from the stored one; parentExpired level loop (range, pass only present ∧ unexpired, expired only for a missing or expired level); Renew refuses only outside 1 … 10 years / 255 bytes / the cap. R10: the parent-conflict helper reports a conflict only for a real sub-name record (shared with C12).",
+			"D6 every direct comparison between the block time and an Expiration field puts t == expiration on the expired side (sibling sites agree on the boundary). D7 OwnerOf/Properties return only with 'not expired' and 'parents alive' established; when a re-registration releases the old owner's entry the credit of the new owner has not yet been written (so re-registration by the same owner keeps its token index entry). D8 Transfer and Register hand control to the receiver (onNEP11Payment) only after all their stores (callback-last). M: Register stores only names of at least two labels, with the TLD present, parents alive and over an absent or expired record; RegisterTLD one label, free, root marker written; Transfer rewrites the record on every successful transfer to another account; updateBalance stores or deletes exactly by the new balance, continuing from the stored one; parentExpired level loop (range, pass only present ∧ unexpired, expired only for a missing or expired level); Renew refuses only outside 1 … 10 years / 255 bytes / the cap. R10: the parent-conflict helper reports a conflict only for a real sub-name record (shared with C12). R11: the step rules of updateBalance run for every constant an entry point hands over: for 0 the balance is stored unchanged and the token index entry is not deleted.",
 		NotCovered: "availability over time and token enumeration equality with a model; the accounting identity over histories is the inductive consequence of D1–D2, not executed.",
 		Run:        runC10,
 	})
@@ -170,6 +170,7 @@ func runC10(cx *CheckCtx) {
 		return
 	}
 	balFn, supFn := fq(balF), fq(supF)
+	passedDiffs := map[int64]string{} // every constant some entry point hands to updateBalance, with a site
 	for _, m := range c.Methods {
 		a := cx.run(m)
 		// D1 single writers
@@ -193,6 +194,11 @@ func runC10(cx *CheckCtx) {
 		}
 		if len(lcs) == 0 {
 			continue
+		}
+		for _, lc := range lcs {
+			if lc.kind == "balance" {
+				passedDiffs[lc.diff] = lc.site.Where(w)
+			}
 		}
 		nMethods++
 		if len(lcs) > 8 {
@@ -246,7 +252,14 @@ func runC10(cx *CheckCtx) {
 	cx.floor("ledger_methods", 2)
 	// updateBalance itself: +diff puts the token index entry, −diff deletes it, balance moves by diff
 	if fn := balF; fn != nil {
-		for _, d := range []int64{1, -1} {
+		ds := []int64{1, -1}
+		for d := range passedDiffs {
+			if d != 1 && d != -1 {
+				ds = append(ds, d)
+			}
+		}
+		sort.Slice(ds[2:], func(i, j int) bool { return ds[2+i] < ds[2+j] })
+		for _, d := range ds {
 			a := cx.analyze(&Query{Name: fmt.Sprint("std:diff=", d), Root: fn, Consts: map[int]constant.Value{3: constant.MakeInt64(d)}})
 			tb := a.tb
 			acc, tok := fnParam(tb, fn, 2), fnParam(tb, fn, 1)
@@ -274,6 +287,16 @@ func runC10(cx *CheckCtx) {
 				}
 				if keyFamily(s.Args[1]) == pfxAccTok && ((d > 0 && s.Effect == "delete") || (d < 0 && s.Effect == "put")) {
 					okI = false
+				}
+			}
+			if d == 0 {
+				// an entry point hands over 0 ("nothing moves"): the owner keeps the token, so its index entry
+				// must not be removed (re-putting the same entry changes nothing)
+				okI = true
+				for _, s := range a.RealEffects() {
+					if keyFamily(s.Args[1]) == pfxAccTok && s.Effect == "delete" {
+						okI = false
+					}
 				}
 			}
 			// the new balance is stored when it is not 0 and the entry deleted when it is: exactly one
@@ -323,8 +346,24 @@ func runC10(cx *CheckCtx) {
 					}
 				}
 			}
+			if d == 0 {
+				// "nothing moves": whatever is stored under the balance key is the value read from it
+				okB = true
+				bk := tb.cat(tb.constBytes(pfxBalance), acc)
+				for _, s := range a.RealEffects() {
+					if s.Effect == "put" && keyFamily(s.Args[1]) == pfxBalance {
+						v := a.canonAt(s, s.Args[2])
+						if v.Op == "toint" {
+							v = v.Args[0]
+						}
+						if !(s.Args[1] == bk && v.Op == "read" && v.Args[0] == bk) {
+							okB = false
+						}
+					}
+				}
+			}
 			cx.decide(okB, "ledger-step", fmt.Sprintf("nns.updateBalance/%+d/balance", d), "stores stored balance + diff under 0x01‖account", "updateBalance does not store (stored balance + diff) for the account", w.pos(fn.Pos()))
-			cx.decide(okI, "ledger-step", fmt.Sprintf("nns.updateBalance/%+d/index", d), "token index entry 0x02‖account‖hash(token) follows the sign of diff", "the token index entry is not added on +1 / removed on −1: tokensOf diverges from the recorded owners", w.pos(fn.Pos()))
+			cx.decide(okI, "ledger-step", fmt.Sprintf("nns.updateBalance/%+d/index", d), "token index entry 0x02‖account‖hash(token) follows the sign of diff", "the token index entry is not added on +1 / removed on −1 (kept on 0, which "+passedDiffs[0]+" hands over): tokensOf diverges from the recorded owners", w.pos(fn.Pos()))
 		}
 	}
 	// D3/D4/D7 Register and Transfer
